@@ -203,7 +203,7 @@ def check(run):
         run.broke('send_packet: local idx not found (renamed?)')
     run.check(not idx or q.render(sp, idx[0]['init']) == 'm_channel->self_idx(m_bound_to)', 'R4', 'direction-index', sp.norm, sp.loc(), 'the counter index is not this side\'s self_idx', 'idx = self_idx(m_bound_to)')
     if not src_field.startswith(CH + '::'):
-        run.floor('R14', 25)
+        run.floor('R14', 17)
         return
     ch = fx.record(CH)[0]
     bs = [f for f in ch['fields'] if f['name'] == 'bytes_sent'][0]
@@ -214,7 +214,7 @@ def check(run):
                 if engines.ctor_initialised_fields(fx, fn, ch).get('bytes_sent'):
                     ctor_ok = True
     run.check(ctor_ok, 'R1', 'counter-starts-at-zero', CH + '::bytes_sent', '%s:%d' % (ch['file'], bs['line']), 'bytes_sent is not initialised: sequence numbers start at whatever the heap held', 'zero-initialised')
-    run.floor('R14', 25)
+    run.floor('R14', 17)
 
 
 def before(fn, a, b):
